@@ -24,12 +24,18 @@ static FILE *rd_open(rd_t *r, const unsigned char *p, long n, long limit) {
   cookie_io_functions_t io = { rd_read, 0, 0, 0 };
   FILE *f = fopencookie(r, "r", io); setvbuf(f, NULL, _IONBF, 0); return f;
 }
-typedef struct { unsigned char *buf; size_t len, cap; long pos, failat, fired; } wr_t;
+typedef struct { unsigned char *buf; size_t len, cap; long pos, failat, fired, dead; } wr_t;
 static ssize_t wr_write(void *c, const char *buf, size_t n) {
   wr_t *w = c;
   if (w->failat >= 0 && !w->fired && w->pos <= w->failat && w->failat < w->pos + (long)n) {
-    w->fired++; w->pos += n; return 0;
+    /* the sink accepts the bytes in front of the failing position (a short write, as a full disk or a closed pipe gives)
+       and reports the error on the next call */
+    size_t k = (size_t)(w->failat - w->pos);
+    w->fired++; w->dead = 1;
+    if (k == 0) { w->pos += n; return 0; }
+    n = k;
   }
+  else if (w->dead) return 0;
   if (w->len + n > w->cap) { w->cap = (w->len + n) * 2 + 64; w->buf = realloc(w->buf, w->cap); }
   memcpy(w->buf + w->len, buf, n); w->len += n; w->pos += n; return n;
 }
